@@ -2,6 +2,7 @@
 import json, os
 import vlib
 
+COQ_TARGETS = ["Props/Properties_C17.vo", "Stream/Extract_Stream.vo"]      # what `./check setup` builds for this property (the extraction feeds the OCaml driver)
 META = dict(
     text="Coq theorems (Props/Properties_C17.v) over executable models of the HTTP-CONNECT, SOCKS5, pseudo-SSL and "
          "TURN-over-TCP receive paths and of the TCP send queue (tcp-bsd.c + socket.c): for ALL streams and ALL chunkings "
